@@ -926,6 +926,10 @@ class Interp:
             if attr == "chain" and obj.exc == "CyclicAliasError":
                 pl = obj.payload or ()
                 return list(pl[0]) if pl and isinstance(pl[0], (list, tuple)) else []
+            if attr == "alias" and obj.exc == "AliasResolutionError":
+                pl = obj.payload or ()
+                if pl:
+                    return pl[0]  # AliasResolutionError(alias) keeps the alias it was raised for
             raise AnalysisError(f"attribute {attr} of exception value")
         if obj is None:
             raise Raised("AttributeError")
